@@ -15,6 +15,9 @@ CHECKS = {
  'C10': dict(engine='gev-c10', technique='exhaustive sweep of numeric spellings (integer ranges, decimal grid, boundary and exponent forms) x contexts x units x ratios through the real transformer, token-level numeric oracle',
    text='All integers |n| < 2^17 in nine contexts as number / px / % / rpx (quick) and the whole i32 range as number and px (thorough); all k/1000 for k < 10^5; 47 hand-picked spellings (exponents, signed zero, leading dot / plus, f32 limits) and 54 boundary integers in every context x 10 units x 9 ratios. Each output numeric token is compared with its input token: rpx -> vw with value*100/ratio within 2^-23 relative (expected computed in f64), other units untouched, integers exactly equal, non-integers within 2^-23.',
    note='Trusted: cssparser tokenizer for the value of a spelling. Deviations that are exactly the six-significant-digit rendering of the correctly computed f32 are one known finding (pinned by the unit tests); anything else is a violation.', ref='4/C10'),
+ 'C17': dict(engine='gev-c17', technique='bounded-exhaustive enumeration of rule trees x option sets; expected normal / low-priority outputs built as model sheets and compared token by token',
+   text='Every rule tree over 8 leaf kinds (ordinary rule, :host, @font-face block, :host(.a), :host .a, .a :host, :host,.b, :host:hover) and 3 rule-bearing wrappers up to depth 1 with lists of <= 2, deeper trees (depth 2 quick / 3 thorough) over 3 leaf kinds, and flat lists of <= 3 / 4 rules, under every option set {convert_host} x {class_prefix} x {host_is} x {sign}. The normal output must be the input minus moved / dropped rules in order; the low-priority output must be, per plain :host rule in order, the same wrapper chain around [wx-host="P"](,[is="H"]) with transformed declarations; one HostSelectorCombination warning per dropped rule; nothing moves with conversion off.',
+   note='Trusted: cssparser tokenizer; the token-level reference rewrite shared with C08. `.a :host` (host not first) is modelled as an ordinary rule, as the anchored mechanism defines detection at the start of a rule.', ref='4/C17'),
 }
 
 NOT_YET = {}
